@@ -145,7 +145,24 @@ def gen_abstract(rng, opts):
         files[name] = {'include': [], 'entries': []}
         depth[name] = depth[parent] + 1
         files[parent]['include'].append(name)
+    index_files = []
+    if opts.get('dup', True) and rng.random() < 0.25 and \
+            'gas/index.yaml' not in files and 'surf/index.yaml' not in files:
+        # two pure index files, byte-identical, in two directories: the same
+        # relative include string names two different data files
+        base = rng.choice(['groups.yaml', 'extra.yaml'])
+        for d in ('gas/', 'surf/'):
+            idx_name, data_name = d + 'index.yaml', d + base
+            if data_name in files:
+                continue
+            files[idx_name] = {'include': [data_name], 'entries': []}
+            files[data_name] = {'include': [], 'entries': []}
+            files['library.yaml']['include'].append(idx_name)
+            fnames.extend([idx_name, data_name])
+            index_files.append(idx_name)
     strata = set()
+    if index_files:
+        strata.add('twin_index_files')
     if fine:
         strata.add('fine_temperatures')
     for kd in keys:
@@ -204,7 +221,9 @@ def gen_abstract(rng, opts):
             data.append(('Cp', t))
         has_range = bool(temps) or rng.random() < 0.5
         # assign to files
-        use = [f for f in fnames if rng.random() < 0.6] or [rng.choice(fnames)]
+        data_files = [f for f in fnames if f not in index_files]
+        use = [f for f in data_files if rng.random() < 0.6] or \
+            [rng.choice(data_files)]
         ent = {}
         for d in data or [('none', None)]:
             n = 1
@@ -355,7 +374,7 @@ def render(aw, pres, scheme_dir='/sim/w'):
                 return fmt(num), num * tfac
             return '%s %s' % (fmt(num), tunit), num * tfac
         lines = []
-        if blk:
+        if blk and fd['entries']:
             lines.append('units:')
             for k in sorted(blk):
                 lines.append('    %s: %s' % (k, blk[k]))
